@@ -23,6 +23,7 @@ type c18Proc struct {
 	parMult    bool // the catch event is parallel-multiple with two message definitions (both delivered by the wake-up)
 	taskAfter  bool // a task A<i> behind the throw event
 	broken     bool // the process cannot be instantiated: its task names an incoming sequence flow that does not exist
+	opRef      string // the catch event's message definition names an operation: "" = no such element, "empty" = an empty element, else its text
 }
 
 func c18Build(ps []c18Proc, flows [][2]string) string {
@@ -55,6 +56,13 @@ func c18Build(ps []c18Proc, flows [][2]string) string {
 		if c.catches {
 			cc := p.Node("catch", fmt.Sprintf("C%d", i))
 			cc.Inner = fmt.Sprintf(`<bpmn:messageEventDefinition id="cd%d" messageRef="m%d"/>`, i, i)
+			switch c.opRef {
+			case "":
+			case "empty":
+				cc.Inner = fmt.Sprintf(`<bpmn:messageEventDefinition id="cd%d" messageRef="m%d"><bpmn:operationRef/></bpmn:messageEventDefinition>`, i, i)
+			default:
+				cc.Inner = fmt.Sprintf(`<bpmn:messageEventDefinition id="cd%d" messageRef="m%d"><bpmn:operationRef>%s</bpmn:operationRef></bpmn:messageEventDefinition>`, i, i, c.opRef)
+			}
 			if c.parMult {
 				cc.Attrs = `parallelMultiple="true"`
 				cc.Inner += fmt.Sprintf(`<bpmn:messageEventDefinition id="cdx%d" messageRef="mx%d"/>`, i, i)
@@ -210,6 +218,12 @@ func runC18(env *Env) {
 			[][2]string{{"H0", "s1"}}, []string{"w", "t:T0", "w", "t:T1", "W"}, []string{"T0", "T1"},
 			func(d map[string]bool) bool { return !d["T0"] || !d["T1"] }, 2},
 		{"throw wakes catch event of another process", []c18Proc{{executable: true, task: true, throws: true}, {executable: true, catches: true}},
+			[][2]string{{"H0", "C1"}}, []string{"w", "t:T0", "w", "t:B1", "W", "W"}, []string{"T0", "B1"},
+			func(d map[string]bool) bool { return !d["T0"] || !d["B1"] }, 2},
+		{"throw wakes catch event that names an operation", []c18Proc{{executable: true, task: true, throws: true}, {executable: true, catches: true, opRef: "op1"}},
+			[][2]string{{"H0", "C1"}}, []string{"w", "t:T0", "w", "t:B1", "W", "W"}, []string{"T0", "B1"},
+			func(d map[string]bool) bool { return !d["T0"] || !d["B1"] }, 2},
+		{"throw wakes catch event with an empty operation reference", []c18Proc{{executable: true, task: true, throws: true}, {executable: true, catches: true, opRef: "empty"}},
 			[][2]string{{"H0", "C1"}}, []string{"w", "t:T0", "w", "t:B1", "W", "W"}, []string{"T0", "B1"},
 			func(d map[string]bool) bool { return !d["T0"] || !d["B1"] }, 2},
 		{"two throws at one catch event", []c18Proc{{executable: true, task: true, throws: true}, {executable: true, task: true, throws: true}, {executable: true, catches: true}},
